@@ -6,7 +6,7 @@ Require Import Sx Bytes Kernel Footer Ref Spec Wire Layout SpecMerge Iter Iter1 
 Open Scope N_scope.
 
 (* ---- C20: (1 ops) with op 0 = AddRef, 1 = DecRef/Close ---- *)
-Definition ref_op_of (n : N) : Ref.op := if n =? 0 then Ref.AddRef else Ref.DecRef.
+Definition ref_op_of (n : N) : Ref.op := if n =? 0 then Ref.AddRef else if n =? 1 then Ref.DecRef else Ref.Use.
 Fixpoint ref_trace (s : Ref.st) (ops : list Ref.op) : list sx :=
   match ops with
   | [] => []
